@@ -1,11 +1,14 @@
 """C02 — the forwarded HTTP request is semantically identical to the client's.
 
-Correspondence of PxModel/Forward.lean (parseAll + header treatment + Build.build) with the REAL
+Correspondence of PxModel/Forward.lean (`Conn.feed`: every client write of a connection — first request,
+leftover handed to on_client_data, the _handle_pipeline_data loop over the requests of a write, CONNECT /
+upgrade relay, teardown on an exception) with the REAL
 HttpProtocolHandler + HttpProxyPlugin driven in-process (harness/sim.py: scripted client socket,
 patched connect handing out a socketpair end): the exact bytes the upstream peer reads per
-request vs the model's `fwd first|later` output.  Requests are generated from the *specification
+client write vs the model's `fwd conn` output.  Requests are generated from the *specification
 side* (the Python mirror of PxModel/ReqSpec.lean `Req` / `render`), cut into segments, and sent
-strictly sequentially (each follow-up only after the previous response was relayed).
+sequentially (a follow-up after the previous response was relayed) or pipelined (neighbouring
+requests share a client write).  Observable: what the upstream peer reads after each client write.
 
 Oracle (implementation only): what the upstream received is parsed with h11 (an independent
 HTTP/1.1 parser) and compared with the generated request under `semEq (fwdSpec …)`.
@@ -20,12 +23,13 @@ PROPERTY = 'C02'
 LEAN_TARGETS = ['PxProofs.C02']
 THEOREMS = [
     'Px.Forward.C02_first', 'Px.Forward.C02_later_partial', 'Px.Forward.C02_later_witness_noVia',
-    'Px.Forward.C02_headers', 'Px.Forward.C02_no_credentials', 'Px.Forward.C02_chunked',
-    'Px.Forward.C02_content_length', 'Px.Forward.C02_content_length_repeated', 'Px.Forward.C02_via_appended',
-    'Px.Forward.C02_forwarded_fields_wellformed',
-    'Px.Forward.forward_wf', 'Px.Forward.parse_render', 'Px.Forward.semEq_impl_spec', 'Px.Forward.parse_pinv',
+    'Px.Forward.C02_connection', 'Px.Forward.C02_headers', 'Px.Forward.C02_no_credentials',
+    'Px.Forward.C02_chunked', 'Px.Forward.C02_content_length', 'Px.Forward.C02_content_length_repeated',
+    'Px.Forward.C02_via_appended', 'Px.Forward.C02_forwarded_fields_wellformed',
+    'Px.Forward.C02_first_request', 'Px.Forward.C02_later_request_partial', 'Px.Forward.C02_no_credentials_request',
+    'Px.Forward.parse_render', 'Px.Forward.semEq_impl_spec', 'Px.Forward.parse_pinv', 'Px.Forward.feed_clean',
 ]
-RULE = ('connections of 1-3 requests generated from the specification-side Req (method, absolute-form target, '
+RULE = ('connections of 1-3 requests (sequential, or pipelined with neighbours sharing a client write) generated from the specification-side Req (method, absolute-form target, '
         'version, 0-12 fields with random name casing / OWS incl. Proxy-Authorization, Proxy-Connection, '
         '--disable-headers names and client Via, Content-Length / chunked / no body, chunk layouts incl. 1-byte '
         'chunks, extensions and the empty body), rendered, cut at random / at every position / byte-wise, fed to the '
@@ -34,8 +38,12 @@ RULE = ('connections of 1-3 requests generated from the specification-side Req (
 ASSUMPTIONS = [
     'default plugin configuration: no HttpProxyBasePlugin in the chain, no connection pool, no TLS interception, '
     '--enable-proxy-protocol off',
-    'requests of one connection are strictly sequential (a follow-up is sent after the previous response was relayed); '
-    'several requests in one segment are C04\'s known finding',
+    'theorems C02_first / C02_later_partial / C02_connection: each request arrives in writes of its own (any number '
+    'of non-empty pieces, the next request after the previous one\'s last byte); requests sharing a write '
+    '(pipelining, /repo 84c574d) are covered by the correspondence runs and the oracle; C02_no_credentials covers '
+    'every sequence of writes',
+    'an exception inside a client write tears the connection down before the upstream queue is flushed: what was '
+    'queued during that write does not reach the origin (model: the write emits nothing, state dead)',
     'CfgOk: --disable-headers does not name via, content-length, transfer-encoding (the operator would remove '
     'framing / the Via the property demands); the re-chunking size is positive',
     'a segment is one non-empty recv() result not larger than the client receive buffer; the schedule respects '
@@ -260,10 +268,29 @@ def _args(case):
     return ['--disable-headers', ','.join(dis)] if dis else []
 
 
+def writes_of(case):
+    """The client writes of the connection: [(bytes, respond_after)] — the segments of each request in
+    order; where `glue[i]` is set the last segment of request i and the first of request i+1 travel in
+    one write (pipelining), otherwise the origin answers request i before request i+1 is sent."""
+    glue = case.get('glue') or []
+    ws = []
+    for i, req in enumerate(case['reqs']):
+        segs = segments(req)
+        if not segs:
+            continue
+        if ws and i > 0 and i - 1 < len(glue) and glue[i - 1]:
+            ws[-1] = (ws[-1][0] + segs[0], False)
+            segs = segs[1:]
+        for sg in segs:
+            ws.append((sg, False))
+        ws[-1] = (ws[-1][0], True)
+    return ws
+
+
 def run_conn(case):
-    """Drive one client connection through the real handler.  Returns, per request, the exact bytes the
-    upstream peer read for it (None = nothing was forwarded).  The upstream socket is writable at once:
-    whatever is queued for it is flushed after every client segment."""
+    """Drive one client connection through the real handler.  Returns, per client write, the exact bytes
+    the upstream peer read after it (b'' = nothing).  The upstream socket is writable at once: whatever
+    is queued for it is flushed after every client write that did not tear the connection down."""
     out = []
     with sim.World(args=_args(case), strict=False) as w:
         h, cs, cp = w.new_client()
@@ -286,31 +313,29 @@ def run_conn(case):
             del up.inbox[:]
             return got
 
-        for i, req in enumerate(case['reqs']):
+        ws = writes_of(case)
+        nresp = 0
+        for k, (seg, respond) in enumerate(ws):
+            # the schedule respects get_events(): a handler that no longer reads its client
+            # (error response pending, teardown after flush) is not handed further segments
+            if not dead and not w.interest(h, cs)[0]:
+                dead = True
             if dead:
-                out.append(None)
+                out.append(b'')
                 continue
-            got = b''
-            for seg in segments(req):
-                # the schedule respects get_events(): a handler that no longer reads its client
-                # (error response pending, teardown after flush) is not handed further segments
-                if not w.interest(h, cs)[0]:
-                    dead = True
-                    break
-                cs.script_recv(('data', seg))
-                if w.tick(h, [cs.fileno()], []) is not False:
-                    dead = True
-                    break
-                got += flush_upstream()
-                if dead:
-                    break
-            out.append(got if got else None)
-            if dead or not w.upstreams or i == len(case['reqs']) - 1:
-                dead = dead or not w.upstreams
+            cs.script_recv(('data', seg))
+            if w.tick(h, [cs.fileno()], []) is not False:
+                dead = True
+                out.append(b'')
+                continue
+            got = flush_upstream()
+            out.append(got)
+            if dead or not respond or not w.upstreams or k == len(ws) - 1:
                 continue
             # the origin answers; the answer is relayed to the client before the next request is sent
             us, up, _addr = w.upstreams[0]
-            resp = RESPONSES[(i + len(got)) % len(RESPONSES)]
+            resp = RESPONSES[(nresp + len(got)) % len(RESPONSES)]
+            nresp += 1
             up.send(resp)
             if w.tick(h, [us.fileno()], []) is not False:
                 dead = True
@@ -329,16 +354,12 @@ def run_conn(case):
 
 
 def impl(case):
-    return ['ok ' + hx(x) if x is not None else 'none' for x in run_conn(case)]
+    return ['ok ' + ' '.join(hx(x) for x in run_conn(case))]
 
 
 def model_lines(case):
     dis = ','.join(L(d).hex() for d in (case.get('disable') or [])) or '-'
-    lines = []
-    for i, req in enumerate(case['reqs']):
-        segs = ' '.join(s.hex() for s in segments(req)) or '-'
-        lines.append('fwd %s %s %s' % ('first' if i == 0 else 'later', dis, segs))
-    return lines
+    return ['fwd conn %s %s' % (dis, ' '.join(sg.hex() for sg, _ in writes_of(case)))]
 
 
 def canon(line):
@@ -458,14 +479,24 @@ def _norm_fields(fields):
     return other, cl
 
 
-def judge(req, disable, got, first):
-    """None or a failure signature for one request of a connection."""
-    if got is None:
-        return 'nothing-forwarded'
+def judge(req, disable, stream, first):
+    """(None or a failure signature, rest of the stream) for the next request of a connection; `stream` is
+    what the origin has received from this request on."""
+    sig, rest = _judge(req, disable, stream, first)
+    return sig, rest
+
+
+def _judge(req, disable, got, first):
+    if not got:
+        return 'nothing-forwarded', b''
     try:
         _reader, (m, t, ver, fields, body, trailing) = read_forwarded(got)
     except Exception as e:      # noqa: BLE001
-        return 'forwarded-message-not-wellformed:' + type(e).__name__
+        return 'forwarded-message-not-wellformed:' + type(e).__name__, b''
+    return _compare(req, disable, first, m, t, ver, fields, body), trailing
+
+
+def _compare(req, disable, first, m, t, ver, fields, body):
     em, et, ever, efields, ebody = fwd_spec(req, disable, True)
     if m != em:
         return 'method-differs'
@@ -473,8 +504,6 @@ def judge(req, disable, got, first):
         return 'target-differs'
     if ver != ever:
         return 'version-differs'
-    if trailing:
-        return 'bytes-after-forwarded-message'
     if body != ebody:
         return 'decoded-body-differs'
     low = [k.lower() for k, _ in fields]
@@ -525,9 +554,16 @@ def in_quantifier(case):
 def oracle(case):
     if not in_quantifier(case):
         return None
-    got = run_conn(case)
+    stream = b''.join(run_conn(case))
     dis = [L(d) for d in case.get('disable') or []]
-    sigs = [judge(req, dis, g, i == 0) for i, (req, g) in enumerate(zip(case['reqs'], got))]
+    sigs = []
+    for i, req in enumerate(case['reqs']):
+        sig, stream = judge(req, dis, stream, i == 0)
+        sigs.append(sig)
+        if sig and sig != 'follow-up-forwarded-without-via' and not stream:
+            break
+    if stream and not any(s and s != 'follow-up-forwarded-without-via' for s in sigs):
+        sigs.append('bytes-after-forwarded-message')
     other = [s for s in sigs if s and s != 'follow-up-forwarded-without-via']
     if other:
         return other[0]
@@ -558,8 +594,11 @@ def _simple(m, host, port, pq, hs, fr='none', body=b'', lay=None, ver='HTTP/1.1'
     return r
 
 
-def _conn(reqs, disable=()):
-    return {'kind': 'conn', 'disable': list(disable), 'reqs': reqs}
+def _conn(reqs, disable=(), glue=None):
+    c = {'kind': 'conn', 'disable': list(disable), 'reqs': reqs}
+    if glue and any(glue):
+        c['glue'] = [bool(g) for g in glue]
+    return c
 
 
 METHODS = [b'GET', b'POST', b'PUT', b'DELETE', b'OPTIONS', b'PATCH', b'HEAD', b'M-SEARCH', b'FOO', b'get', b'X!y~z']
@@ -717,6 +756,27 @@ def corpus():
     raw = b'GET http://h/ HTTP/1.1\r\nContent-Length: x\r\n\r\n'
     cs.append(_conn([{'raw': raw.hex(), 'cuts': [24, 43]}]))
     cs.append(_conn([{'raw': raw.hex(), 'cuts': [16, 43]}]))
+    # requests sharing a write (pipelining, fixed by 84c574d): all in one write, tail+head in one write
+    g1 = _simple(b'GET', 'h', None, '/1', host)
+    p2 = _simple(b'POST', 'h', None, '/2', host + [('Content-Length', ' ', '3', '')], 'cl', b'abc')
+    c3 = _simple(b'POST', 'h', None, '/3', host + [te], 'chunked', b'xy', {'chunks': [[1, '', ''], [1, '', ';e']]})
+    cs.append(_conn([g1, p2, c3], glue=[True, True]))
+    cs.append(_conn([c3, g1, p2, g1], glue=[True, True, True]))
+    cs.append(_conn([dict(p2, cuts=[30]), dict(c3, cuts=[20, 60]), g1], glue=[True, True]))
+    cs.append(_conn([g1, dict(p2, cuts=[10])], ['x-a'], glue=[True]))
+    # a complete request followed in the same write by bytes that make the next parse raise: the
+    # connection is torn down before the queued request is flushed
+    for junk in (b'GARBAGE\r\n\r\n', b'GET ftp://h/ HTTP/1.1\r\n\r\n', b'G', b'GET http://h/x HTTP/1.1\r\nContent-Length: x\r\n\r\n'):
+        cs.append(_conn([g1, {'raw': junk.hex(), 'cuts': []}], glue=[True]))
+        cs.append(_conn([g1, p2, {'raw': junk.hex(), 'cuts': []}], glue=[False, True]))
+    # relay modes: CONNECT tunnel, follow-up upgrade request
+    cs.append(_conn([{'raw': b'CONNECT h:443 HTTP/1.1\r\nHost: h:443\r\n\r\n'.hex(), 'cuts': []},
+                     {'raw': b'\x16\x03\x01hello'.hex(), 'cuts': [3]}]))
+    cs.append(_conn([{'raw': b'CONNECT h:443 HTTP/1.1\r\n\r\n'.hex(), 'cuts': []},
+                     {'raw': b'early-data'.hex(), 'cuts': []}], glue=[True]))
+    up = _simple(b'GET', 'h', None, '/ws', host + [('Connection', ' ', 'Upgrade', ''), ('Upgrade', ' ', 'websocket', '')])
+    cs.append(_conn([g1, up, {'raw': b'\x81\x02hi'.hex(), 'cuts': []}]))
+    cs.append(_conn([g1, up, {'raw': b'\x81\x02hi'.hex(), 'cuts': []}], glue=[False, True]))
     for raw in BAD_RAW + ODD_RAW:
         cs.append(_conn([{'raw': raw.hex(), 'cuts': []}]))
         cs.append(_conn([{'raw': raw.hex(), 'cuts': [len(raw) // 2]}]))
@@ -737,6 +797,13 @@ def generate(rng, tier):
                 nb = rng.choice([3000, 5000, 20000])
             reqs.append(gen_req(rng, disable, i == 0, nbody=nb, allow_upgrade=(i == k - 1)))
         yield _conn(reqs, disable)
+        # the same requests pipelined: neighbours share a write (no answer in between)
+        if k > 1 and rng.random() < 0.35:
+            glue = [rng.random() < 0.7 for _ in range(k - 1)]
+            if rng.random() < 0.3:
+                yield _conn([dict(r, cuts=[]) for r in reqs], disable, glue=[True] * (k - 1))
+            else:
+                yield _conn(reqs, disable, glue=glue)
         # every cut position / byte-wise feeding of small requests
         r0 = reqs[0]
         n = len(render(r0))
@@ -751,8 +818,9 @@ def generate(rng, tier):
             if rng.random() < 0.5:
                 raw = G.mutate(rng, render(rng.choice(reqs)))
             if raw:
-                yield _conn(reqs[:rng.randrange(0, len(reqs))] +
-                            [{'raw': raw.hex(), 'cuts': G.cuts(rng, len(raw), rng.choice([0, 1, 2]))}], disable)
+                pre = reqs[:rng.randrange(0, len(reqs))]
+                yield _conn(pre + [{'raw': raw.hex(), 'cuts': G.cuts(rng, len(raw), rng.choice([0, 1, 2]))}], disable,
+                            glue=[rng.random() < 0.4 for _ in pre])
     # large bodies: a handful
     for nb in ([65535, 65536, 70 * 1024, 71000, 131071, 131072, 131073, 200000, 262145] if thorough
                else [65536, 70 * 1024, 131073]):
@@ -779,7 +847,9 @@ def neighbours(case):
             reqs[i] = dict(r, cuts=[c])
             yield dict(case, reqs=reqs)
     if len(case['reqs']) > 1:
-        yield dict(case, reqs=case['reqs'][:1])
+        yield dict(case, reqs=case['reqs'][:1], glue=[])
+        yield dict(case, glue=[True] * (len(case['reqs']) - 1))
+        yield dict(case, glue=[])
     yield dict(case, disable=[])
 
 
@@ -800,7 +870,7 @@ def _reader_of(req):
 
 def describe(case):
     out = ['requests=%d' % len(case['reqs']), 'in-quantifier=%d' % in_quantifier(case),
-           'disable=%d' % len(case.get('disable') or [])]
+           'disable=%d' % len(case.get('disable') or []), 'shared-writes=%d' % sum(case.get('glue') or [])]
     for i, r in enumerate(case['reqs']):
         if 'raw' in r:
             out.append('raw-request')
